@@ -357,6 +357,54 @@ pub fn pumped(rep: &mut Report, tier: Tier) {
     rep.absorb(t);
 }
 
+/// Variants and structs whose payload is (or may come out as) the *empty* object or array: a
+/// struct variant declared without fields, one whose only field is skipped when `None`, an empty
+/// struct, an empty tuple struct / tuple variant (serde_json itself decides whether the shape is
+/// in the domain: it has to round-trip it).
+#[derive(Serialize, Deserialize, PartialEq, Debug, Clone)]
+pub enum EmptyPayloads {
+    NoFields {},
+    AllSkipped {
+        #[serde(default, skip_serializing_if = "Option::is_none")]
+        a: Option<u8>,
+        #[serde(default, skip_serializing_if = "Vec::is_empty")]
+        b: Vec<u8>,
+    },
+    NoItems(),
+    Unit,
+}
+
+#[derive(Serialize, Deserialize, PartialEq, Debug, Clone)]
+pub struct EmptyStruct {}
+
+#[derive(Serialize, Deserialize, PartialEq, Debug, Clone)]
+pub struct EmptyTuple();
+
+#[derive(Serialize, Deserialize, PartialEq, Debug, Clone)]
+#[serde(tag = "t", content = "c")]
+pub enum EmptyAdjacent {
+    NoFields {},
+    NoItems(),
+    Unit,
+}
+
+fn empty_payloads(t: &mut Tally) {
+    let all = [EmptyPayloads::NoFields {}, EmptyPayloads::AllSkipped { a: None, b: vec![] }, EmptyPayloads::AllSkipped { a: Some(3), b: vec![] }, EmptyPayloads::AllSkipped { a: None, b: vec![1] }, EmptyPayloads::NoItems(), EmptyPayloads::Unit];
+    for x in &all {
+        contexts(x, "variant with an empty (or possibly empty) payload", false, t);
+        check_datum(&(x.clone(), x.clone()), "pair of variants with empty payloads", false, t);
+        check_datum(&BTreeMap::from([("k".to_string(), vec![x.clone()])]), "map of Vec of variants with empty payloads", false, t);
+    }
+    contexts(&EmptyStruct {}, "empty struct", false, t);
+    contexts(&EmptyTuple(), "empty tuple struct", false, t);
+    for x in [EmptyAdjacent::NoFields {}, EmptyAdjacent::NoItems(), EmptyAdjacent::Unit] {
+        contexts(&x, "adjacently tagged variant with an empty payload", false, t);
+    }
+    buffered(EmptyStruct {}, "an empty struct", t);
+    buffered(EmptyPayloads::NoFields {}, "a struct variant without fields", t);
+    buffered(EmptyPayloads::AllSkipped { a: None, b: vec![] }, "a struct variant whose fields are all skipped", t);
+}
+
 /// Every kind of leaf inside every representation that serde deserializes through its buffered
 /// `Content` tree (flatten, internally tagged, untagged): there the datum reaches the crate's
 /// deserializer through `deserialize_any` only, so what `deserialize_any` *announces* for null,
@@ -470,6 +518,7 @@ fn buffered_leaves(t: &mut Tally) {
 
 fn representations(t: &mut Tally) {
     buffered_leaves(t);
+    empty_payloads(t);
     for x in [-128i8, -1, 0, 127] {
         for s in ["", "a", "t", "\u{1f600}"] {
             check_datum(&Internal::A { x, s: s.to_string() }, "internally tagged enum", false, t);
